@@ -2,6 +2,8 @@
 From Coq Require Import ZArith.
 From Coq Require Import List.
 From Syz Require Import QLex QParse QLexProofs QParseProofs QParseWhole.
+(* the tables of the model are the ones regenerated from the Go sources on this run *)
+From Syz Require GenTablesOk.
 Open Scope N_scope.
 
 (* acceptance implies that the parser stands on the EOF token: every token of the text was consumed
